@@ -4,6 +4,7 @@ import (
 	"context"
 	"errors"
 	"fmt"
+	"hash/fnv"
 	"net"
 	"sort"
 	"strconv"
@@ -151,13 +152,16 @@ func (f *fakeRedis) process(cmd redis.Cmder, id int, racing bool) error {
 	f.mu.Lock()
 	defer f.mu.Unlock()
 	args := cmd.Args()
+	var rec *[]interface{}
 	if racing {
 		if f.by == nil {
 			f.by = map[int][][]interface{}{}
 		}
 		f.by[id] = append(f.by[id], append([]interface{}{}, args...))
+		rec = &f.by[id][len(f.by[id])-1]
 	} else {
 		f.cmds = append(f.cmds, append([]interface{}{}, args...))
+		rec = &f.cmds[len(f.cmds)-1]
 	}
 	if len(args) == 0 {
 		return fail(cmd, "ERR empty command")
@@ -295,26 +299,70 @@ func (f *fakeRedis) process(cmd redis.Cmder, id int, racing bool) error {
 		}
 		return nil
 	case "scan":
-		pat := "*"
+		// as in redis: walk the WHOLE key space in a fixed order, COUNT (default 10) raw keys per call, apply MATCH
+		// (and expiry) afterwards - a page can be partial or empty - and answer cursor 0 only at the end of the walk.
+		// The cursor is a position in the order (not an index), so deletions between pages skip nothing.
+		if len(args) < 2 {
+			return fail(cmd, "ERR wrong number of arguments for 'scan' command")
+		}
+		cur, ok := argInt(args[1])
+		if !ok {
+			return fail(cmd, "ERR invalid cursor")
+		}
+		pat, count := "*", int64(10)
 		for i := 2; i+1 < len(args); i += 2 {
 			w, _ := argStr(args[i])
-			if strings.ToLower(w) == "match" {
+			switch strings.ToLower(w) {
+			case "match":
 				pat, _ = argStr(args[i+1])
+			case "count":
+				if n, ok := argInt(args[i+1]); ok && n > 0 {
+					count = n
+				}
 			}
 		}
-		keys := []string{}
+		type hk struct {
+			h uint64
+			k string
+		}
+		var all []hk
 		for k := range f.data {
-			if f.live(k) != nil && globMatch(pat, k) {
-				keys = append(keys, k)
+			all = append(all, hk{scanPos(k), k})
+		}
+		sort.Slice(all, func(i, j int) bool { return all[i].h < all[j].h || (all[i].h == all[j].h && all[i].k < all[j].k) })
+		keys := []string{}
+		var next uint64
+		seen := int64(0)
+		for i, x := range all {
+			if x.h < uint64(cur) {
+				continue
+			}
+			if seen >= count && x.h != all[i-1].h {
+				next = x.h
+				break
+			}
+			seen++
+			if f.live(x.k) != nil && globMatch(pat, x.k) {
+				keys = append(keys, x.k)
 			}
 		}
-		sort.Strings(keys)
 		if c, is := cmd.(*redis.ScanCmd); is {
-			c.SetVal(keys, 0)
+			c.SetVal(keys, next)
 		}
+		*rec = append(*rec, scanNext(next))
 		return nil
 	}
 	return fail(cmd, fmt.Sprintf("ERR unknown command '%s'", name))
+}
+
+// scanNext is appended to the recorded argument vector of a SCAN: the cursor the fake answered
+type scanNext uint64
+
+// scanPos is the position of a key in the fake's iteration order (never 0: cursor 0 means "from the start")
+func scanPos(k string) uint64 {
+	h := fnv.New32a()
+	h.Write([]byte(k))
+	return uint64(h.Sum32()) + 1
 }
 
 // globMatch: only the forms the adapter can produce (literal prefix followed by one '*', or a literal)
